@@ -1,0 +1,71 @@
+//go:build verif
+
+package consensus
+
+// Hooks for /verif property C03 (write-ahead log). Add-only; thin wrappers
+// around unexported walWriter internals. Nothing here changes behaviour of
+// existing code.
+
+// VerifC03Writer gives access to a walWriter created by OpenWALForWrite.
+type VerifC03Writer struct {
+	w *walWriter
+}
+
+func VerifC03WriterOf(ww WALWriter) *VerifC03Writer {
+	w, ok := ww.(*walWriter)
+	if !ok {
+		return nil
+	}
+	return &VerifC03Writer{w}
+}
+
+// Shift calls walWriter.Shift (segment rotation).
+func (v *VerifC03Writer) Shift() error { return v.w.Shift() }
+
+// Housekeep runs one housekeeping round synchronously (what the ticker does).
+func (v *VerifC03Writer) Housekeep() { v.w.doHousekeeping() }
+
+// TailIdx returns the index of the tail segment.
+func (v *VerifC03Writer) TailIdx() uint64 {
+	v.w.mutex.Lock()
+	defer v.w.mutex.Unlock()
+	return v.w.tailIdx
+}
+
+// Buffered returns the number of bytes in the bufio buffer.
+func (v *VerifC03Writer) Buffered() int {
+	v.w.mutex.Lock()
+	defer v.w.mutex.Unlock()
+	return v.w.buf.Buffered()
+}
+
+// Dirty reports eldestUnsyncData != nil, i.e. something was written since
+// the last sync.
+func (v *VerifC03Writer) Dirty() bool {
+	v.w.mutex.Lock()
+	defer v.w.mutex.Unlock()
+	return v.w.eldestUnsyncData != nil
+}
+
+// Crash simulates a process/OS crash of the writer: the housekeeping goroutine
+// is stopped, buffered bytes are handed to the OS *without* fsync (so that the
+// caller can keep an arbitrary prefix of the unsynced bytes by truncating the
+// tail file), and the descriptor is dropped without walWriter.Close (no sync).
+func (v *VerifC03Writer) Crash() error {
+	v.w.stopHousekeeping()
+	v.w.mutex.Lock()
+	defer v.w.mutex.Unlock()
+	if err := v.w.buf.Flush(); err != nil {
+		return err
+	}
+	return v.w.tail.File.Close()
+}
+
+// VerifC03FileFor is fileFor.
+func VerifC03FileFor(id string, idx uint64) string { return fileFor(id, idx) }
+
+// VerifC03HeaderLen is headerLen.
+const VerifC03HeaderLen = headerLen
+
+// VerifC03BufSize is configWALBufSize.
+const VerifC03BufSize = configWALBufSize
